@@ -65,6 +65,9 @@ POSITIONS = [
     # a CTE named like a table of the probed integration; that table referenced by its qualified name
     ('cte_named_like_probed_table', 'WITH t2 AS (SELECT * FROM int1.t1 WHERE a = 1) SELECT * FROM t2 AS o JOIN {A}.t2 AS p ON o.id = p.id', ['t1', 't2']),
     ('cte_named_like_probed_table_sub', 'WITH t2 AS (SELECT * FROM int1.t1) SELECT * FROM int1.t3 JOIN {A}.t2 ON t3.id = t2.id WHERE t3.id IN (SELECT id FROM t2)', ['t1', 't3', 't2']),
+    # a schema-qualified table whose schema part is spelled like ANOTHER integration (int1 holds a schema called int2)
+    ('schema_named_like_other_integration', 'SELECT * FROM int1.int2.t1 AS u JOIN int1.t3 ON u.id = t3.id', ['t1', 't3']),
+    ('schema_named_like_other_integration_model', 'SELECT * FROM int1.int2.t1 AS u JOIN mindsdb.pred', ['t1']),
     ('subquery_same_integration_as_probe', 'SELECT * FROM {A}.t2 WHERE id IN (SELECT t1.id FROM int1.t1 JOIN {A}.t2 AS u ON t1.id = u.id)', ['t2', 't1', 't2']),
 ]
 
@@ -86,7 +89,7 @@ MODEL_POSITIONS = [
     ('subquery_two_versions', 'SELECT * FROM int1.t1 JOIN {M}.pred.1 WHERE t1.id IN (SELECT t3.id FROM int1.t3 JOIN {M}.pred.2)', ['t1', 't3'], [('pred', '1'), ('pred', '2')]),
 ]
 
-CATALOGS = ['names_list', 'dicts_list', 'names_legacy', 'dicts_default', 'upper_names']
+CATALOGS = ['names_list', 'dicts_list', 'names_legacy', 'dicts_default', 'upper_names', 'legacy_dict_capital_project', 'list_capital_project', 'legacy_dict_default_int1']
 
 
 def catalog(kind, project='mindsdb'):
@@ -102,6 +105,19 @@ def catalog(kind, project='mindsdb'):
     if kind == 'dicts_default':
         return dict(integrations=[{'name': 'int1', 'type': 'data'}, {'name': 'int2', 'type': 'data'}, {'name': project, 'type': 'project'}],
                     predictor_metadata=metas, default_namespace='mindsdb')
+    if kind == 'legacy_dict_capital_project':
+        # legacy {name: info} metadata whose project is spelled with capitals and is listed nowhere else
+        if project != 'proj':
+            return None
+        return dict(integrations=['int1', 'int2'], predictor_metadata={'pred': {'integration_name': 'Proj'}, 'pred2': {'integration_name': 'Proj'}}, default_namespace='mindsdb')
+    if kind == 'legacy_dict_default_int1':
+        if project != 'proj':
+            return None
+        return dict(integrations=['int1', 'int2'], predictor_metadata={'pred': {'integration_name': 'PROJ'}, 'pred2': {'integration_name': 'PROJ'}}, default_namespace='int1')
+    if kind == 'list_capital_project':
+        if project != 'proj':
+            return None
+        return dict(integrations=['int1', 'int2'], predictor_metadata=[dict(name='pred', integration_name='Proj'), dict(name='pred2', integration_name='Proj')], default_namespace='mindsdb')
     if kind == 'upper_names':
         return dict(integrations=['INT1', 'Int2'] + ([] if project == 'mindsdb' else [{'name': project, 'type': 'project'}]), predictor_metadata=metas)
 
@@ -192,11 +208,13 @@ class CHECK(Check):
                 if HOME[name] != integ:
                     wrong = True
                     out.append((f'table-sent-to-wrong-integration|{pl}', f'{sql!r} [{cat}]: table {name} (home {HOME[name]}) appears in the fetch sent to {f.integration}: {f.query}'))
-                elif len(parts) > 1:
+                elif len(parts) > 1 and not (pl.startswith('schema_named_like_other_integration') and len(parts) == 2 and parts[0].lower() == 'int2'):
                     out.append((f'qualifier-not-removed|{pl}', f'{sql!r} [{cat}]: fetch on {f.integration} still names {".".join(parts)}'))
             if f.query is not None and not wrong:
                 for idn, path in reflect.walk(f.query, want=lambda o: isinstance(o, A.Identifier)):
                     ps = [str(p).lower() for p in idn.parts]
+                    if pl.startswith('schema_named_like_other_integration') and ps[:2] == ['int2', 't1']:
+                        continue     # the schema part of the table name, not an integration qualifier
                     if len(ps) > 1 and ps[0] in ('int1', 'int2') and 'alias' not in [p for p in path if isinstance(p, str)]:
                         out.append((f'qualifier-not-removed|{pl}', f'{sql!r} [{cat}]: fetch on {f.integration} contains identifier {".".join(idn.parts)}'))
                         break
